@@ -73,7 +73,14 @@ func fullOracle(prop string, snapshot bool) func(c *Case) Oracle {
 			d = newDealerPart(w)
 			m = newMetaPart(w, b, d)
 			b.metaAsserted = true
-			return []Part{b, d, m}
+			parts := []Part{b, d, m}
+			if len(c.Realms) > 0 && len(c.Realms[0].History) > 0 {
+				// C18 on a realm with event histories: their subscriptions are never deleted,
+				// so no on_delete may be announced for them
+				d.handledProcs["wamp.subscription.get_events"] = true
+				parts = append(parts, newHistoryPart(w, b, bubbleEpoch))
+			}
+			return parts
 		})
 		if snapshot {
 			o.afterStep = func(e *Engine, st *StepRec) *Violation {
@@ -456,6 +463,12 @@ func genMixed(t *rapid.T, profile string) *Case {
 				}
 			}
 		}
+	}
+	if profile == "C18" && pct(t, 12, "historyrealm") {
+		// two topics of the generator's alphabet keep an event history; session 0 subscribes
+		// first, so that the subscription ids are known before anybody asks the meta API
+		c.Realms[0].History = []HistCfg{{Topic: "a.b", Limit: 2}, {Topic: "a", Match: "prefix", Limit: 2}}
+		c.Ops = append(c.Ops, Op{K: "subscribe", S: 0, URI: "a.b"}, Op{K: "subscribe", S: 0, URI: "a", Mode: "prefix"})
 	}
 	ops := rapid.SliceOfN(rapid.Custom(func(t *rapid.T) Op { return g.op(t) }), minHistory(t, 35), 35).Draw(t, "ops")
 	c.Ops = append(c.Ops, ops...)
